@@ -52,6 +52,58 @@ static std::string handle(const std::vector<std::string>& a) {
   //   o<mask> object[fresh key];  p<k> object.remove(k-th key);  c clear();  s shrinkToFit()
   //   mask bit j set => the j-th allocator call made by this op fails.
   // after every op: <slot id | x>/<allocator calls>/<chain of slot ids>
+  // SBG : geometry of string nodes: offsetof(StringNode, data) and StringNode::maxLength
+  if (a[0] == "SBG") return std::to_string(detail::sizeofString(0) - 1) + " " + std::to_string(detail::StringNode::maxLength);
+  // SB <hdr> <maxlen> <answers 0/1... or -> <op>... : one StringBuilder reused for every string (as a deserializer does), on an
+  // instrumented allocator whose k-th allocate/reallocate fails when answers[k] == '0'; op = s<hex> store | d<hex> dereference
+  if (a[0] == "SB" && a.size() >= 4) {
+    SpyAllocator spy;
+    if (a[3] != "-") { spy.fail.assign(a[3].size(), false); for (size_t i = 0; i < a[3].size(); i++) spy.fail[i] = a[3][i] == '0'; }
+    std::string out;
+    {
+      detail::ResourceManager rm(&spy);
+      {
+        detail::StringBuilder sb(&rm);
+        for (size_t i = 4; i < a.size(); i++) {
+          const std::string& op = a[i];
+          if (op.empty()) continue;
+          std::string body = unhex(op.substr(1));
+          size_t logStart = spy.log.size();
+          std::string res;
+          if (op[0] == 's') {
+            sb.startString();
+            for (char ch : body) sb.append(ch);
+            if (!sb.isValid()) res = "NoMemory";
+            else {
+              detail::StringNode* node = sb.save();
+              res = std::to_string((size_t)node->length) + ":" + std::to_string((size_t)node->references) + ":" + hex(node->data, node->length);
+              if (node->data[node->length] != 0) res += "!UNTERMINATED";
+            }
+          } else {
+            detail::StringNode* node = rm.getString(detail::adaptString(body.data(), body.size()));
+            if (node) rm.dereferenceString(node->data);
+            res = "-";
+          }
+          std::string evs;
+          for (size_t k = logStart; k < spy.log.size(); k++) {
+            const SpyAllocator::Call& cl = spy.log[k];
+            if (!evs.empty()) evs += ",";
+            if (cl.kind == 'a') evs += "a" + std::to_string(cl.a) + (cl.ok ? "+" : "-");
+            else if (cl.kind == 'r') evs += "r" + std::to_string(cl.a) + ">" + std::to_string(cl.b) + (cl.ok ? "+" : "-");
+            else evs += "f" + std::to_string(cl.a);
+          }
+          out += res + "/" + evs + " ";
+        }
+        size_t pooled = 0;
+        // (the pool has no public size in nodes: count through its byte size is not exact; count by lookups is not possible: use the ledger)
+        pooled = spy.live.size();
+        out += "live=" + std::to_string(pooled) + (sb.isValid() ? " scratch=yes" : " scratch=-");
+      }
+      rm.clear();
+    }
+    out += " leaked=" + std::to_string(spy.live.size()) + (spy.misuse ? " MISUSE" : "");
+    return out;
+  }
   if (a[0] == "ARUN") {
     SpyAllocator spy;
     std::string out;
